@@ -67,6 +67,24 @@ def rule_xconf(ctx):
                 if "path" in t2["callee"]:
                     from purlsa.core import callee_name as _cn
                     callers.setdefault(_cn(t2["callee"]), set()).add(xconf.map_key(root2))
+        # .. and a private `const` that only gated items read (`#[cfg(feature = ..)] const SEPARATOR: char = '/';` next
+        # to the gated impl that uses it): users of each named constant, from the unevaluated constant operands
+        def _const_defs(x, acc):
+            if isinstance(x, dict):
+                if x.get("k") == "unevaluated" and x.get("def") and x.get("promoted") is None:
+                    acc.add(x["def"])
+                for v_ in x.values():
+                    _const_defs(v_, acc)
+            elif isinstance(x, list):
+                for v_ in x:
+                    _const_defs(v_, acc)
+        for k2, b2 in fa.bodies.items():
+            root2 = b2.j.get("root", k2) if b2.kind == "closure" else k2
+            acc = set()
+            _const_defs(b2.j.get("blocks", []), acc)
+            for d_ in acc:
+                if d_ != k2:
+                    callers.setdefault(d_, set()).add(xconf.map_key(root2))
         gated_set = set(k for k in only_a if pred(k))
         changed = True
         while changed:
@@ -82,6 +100,9 @@ def rule_xconf(ctx):
                     continue
                 cs = callers.get(ka[k], set())
                 if f_ and not f_.get("exported") and "impl_trait_def" not in f_ and cs and cs <= gated_set:
+                    gated_set.add(k)
+                    changed = True
+                elif not f_ and fa.bodies[ka[k]].kind in ("const", "static") and cs and cs <= gated_set:
                     gated_set.add(k)
                     changed = True
         for k in only_a:
